@@ -112,7 +112,8 @@ fn build_host(cache: bool, permissive: bool) -> (Arc<HostCollection>, Vec<Arc<At
     if !cache {
         host.disable_response_cache();
     }
-    (HostCollection::builder().insert(host).build(), counters)
+    // the default host as well, so that `clear_page("default", …)` and `clear_page("", …)` mean this host
+    (HostCollection::builder().default(host).build(), counters)
 }
 
 fn gen_events(rng: &mut Rng, timed: bool) -> String {
@@ -131,7 +132,8 @@ fn gen_events(rng: &mut Rng, timed: bool) -> String {
         }
         match if mixy && rng.chance(1, 5) { 0 } else { rng.below(14) } {
             0 => format!("K:{}:{}", rng.pick(&focus), rng.below(4)),
-            1 if !timed => "A".to_owned(),
+            1 if !timed => (*rng.pick(&["A", "A", "AH", "AO"])).to_owned(),
+            3 if !timed && rng.chance(1, 2) => format!("KD:{}:{}", rng.pick(&focus), rng.below(4)),
             2 if !timed => format!("KR:{}", rng.below(4)),
             _ => {
                 let p = if rng.chance(4, 5) { *rng.pick(&focus) } else { rng.below(TABLE.len()) };
@@ -154,7 +156,7 @@ impl Group for History {
         "c03.hist"
     }
     fn rule(&self) -> &'static str {
-        "histories of 3-40 events over 14 handlers (Full, QueryMatters, a handler whose preference depends on the query so that both key variants of one path are live, None, 404, filtered 403, kvarn-cache-control none / 1s, cache-control max-age=2, exactly 4 MiB and one byte less, `/`->/index.html and `/d/`->/d/index.html expansions, a streaming response) x 4 query forms (none, empty, x=1, x=2) x GET/HEAD/POST/OPTIONS/TRACE x If-Modified-Since (absent, current, 10 s old, the stored entry's own last-modified as a hit reported it, one second before that) x clear_page / clear of `/` as typed / clear_response_caches, default and permissive status filter, cache on/off; timed histories use real waits of 0.3/1.6/2.6 s against lifetimes of 1 and 2 s; every handler embeds its invocation counter, so which replies are hits, which are recomputed and which are 304 is observable and compared with the model; the same history runs against an uncached twin (oracle: same status and same representation, no counter older than its lifetime); non-trivial = at least one hit or 304"
+        "histories of 3-40 events over 14 handlers (Full, QueryMatters, a handler whose preference depends on the query so that both key variants of one path are live, None, 404, filtered 403, kvarn-cache-control none / 1s, cache-control max-age=2, exactly 4 MiB and one byte less, `/`->/index.html and `/d/`->/d/index.html expansions, a streaming response) x 4 query forms (none, empty, x=1, x=2) x GET/HEAD/POST/OPTIONS/TRACE x If-Modified-Since (absent, current, 10 s old, the stored entry's own last-modified as a hit reported it, one second before that) x clear_page (by host name, as `default`, as ``) / clear of `/` as typed / clear_response_caches (all hosts, this host, another host), default and permissive status filter, cache on/off; timed histories use real waits of 0.3/1.6/2.6 s against lifetimes of 1 and 2 s; every handler embeds its invocation counter, so which replies are hits, which are recomputed and which are 304 is observable and compared with the model; the same history runs against an uncached twin (oracle: same status and same representation, no counter older than its lifetime); non-trivial = at least one hit or 304"
     }
     fn generate(&self, ctx: &Ctx, rng: &mut Rng) -> Vec<String> {
         let mut v = Vec::new();
@@ -276,6 +278,24 @@ impl Group for History {
                     let uri = match QUERIES[f[2].parse::<usize>().unwrap()] { None => TABLE[pi].0.to_owned(), Some(q) => format!("{}?{q}", TABLE[pi].0) };
                     coll.clear_page("localhost", &uri.parse().unwrap());
                 }
+                "KD" => {
+                    // the same page cleared through the default host's names
+                    last_counter.clear();
+                    hit_lm.clear();
+                    let pi: usize = f[1].parse().unwrap();
+                    let uri = match QUERIES[f[2].parse::<usize>().unwrap()] { None => TABLE[pi].0.to_owned(), Some(q) => format!("{}?{q}", TABLE[pi].0) };
+                    coll.clear_page(if pi % 2 == 0 { "default" } else { "" }, &uri.parse().unwrap());
+                }
+                "AH" => {
+                    // every response of this host
+                    last_counter.clear();
+                    hit_lm.clear();
+                    rt.block_on(coll.clear_response_caches(Some("localhost")));
+                }
+                "AO" => {
+                    // every response of some other host: nothing of ours
+                    rt.block_on(coll.clear_response_caches(Some("other.test")));
+                }
                 "KR" => {
                     last_counter.clear();
                     hit_lm.clear();
@@ -312,12 +332,12 @@ impl Group for History {
         let mut once_only: std::collections::HashSet<(usize, String)> = Default::default();
         for ev in parse_list(p[3])? {
             let f: Vec<&str> = ev.split(':').collect();
-            if f[0] == "K" {
+            if f[0] == "K" || f[0] == "KD" {
                 let pi: usize = f[1].parse().ok()?;
                 cleared.insert((pi, f[2].to_owned()), seen.get(&pi).cloned().unwrap_or_default());
                 continue;
             }
-            if f[0] == "A" {
+            if f[0] == "A" || f[0] == "AH" {
                 for (pi, v) in &seen {
                     for q in 0..4 {
                         cleared.insert((*pi, q.to_string()), v.clone());
